@@ -431,6 +431,11 @@ func c12Scenarios(thorough bool) []string {
 		for l := 0; l < 10; l++ {
 			add(fmt.Sprintf("CV:%d|CZ:%d|CV:%d", l, l, (l+3)%10))
 		}
+		// four goroutines (one preemption less again): same cold table, two tables, mixed entry points
+		add("CV:2|CV:2|CV:2|CV:2")
+		add("CV:5|CV:5|CV:9|CV:9")
+		add("CV:8|GE:8|SD:8|CF:8")
+		add("NS:2|NS:5|NS:2:24|NS:6:15")
 	}
 	// S5 crossed orders
 	add("CV:2,CV:5|CV:5,CV:2")
@@ -527,6 +532,9 @@ func runC12(tier string) int {
 	}
 	var allv []vrec
 	boundVar := func(sc string) int {
+		if strings.Count(sc, "|") >= 3 {
+			return bound - 2 // four threads
+		}
 		if strings.Count(sc, "|") >= 2 {
 			return bound - 1 // three-thread scenarios: one preemption less
 		}
@@ -559,7 +567,7 @@ func runC12(tier string) int {
 		if strings.Count(sc, "|") >= 2 {
 			return 1
 		}
-		return bound - 1
+		return bound - 1 // (four-thread scenarios also run with one preemption at statement level)
 	}
 	perD := map[string]int64{}
 	v2, fb2, err := exploreAll(workerDense, exploreScenarios, boundDense, baseline, 2, hb, stD, perD)
